@@ -523,6 +523,28 @@ Definition clean (d : dd) (cp : option N) (victim : N) (fail : bool) : dd * res 
     end
   else let '(d1, _) := delete d victim in (d1, ROk).
 
+(** ** diffDisk.Unmap(offset, length): fallocate(PUNCH_HOLE | KEEP_SIZE) over the byte range on every chain
+    file whose index is above SnapIndx (`if indx <= d.SnapIndx || file == nil { continue }`), synchronously.
+    The file system removes the blocks that lie completely inside the range and zeroes the covered part of a
+    partially covered block that has an extent.  d.location is NOT touched: an entry may afterwards point to a
+    file that has no extent there (the read then returns zeros from the hole, until the table is rebuilt). *)
+Definition zero_range (v : blockdata) (lo hi : nat) : blockdata :=
+  firstn lo v ++ repeat 0%N (hi - lo) ++ skipn hi v.
+
+Definition unmap_file (K : nat) (f : file) (off len : nat) : file :=
+  fun b =>
+    let s := b * K in
+    let e := S b * K in
+    if (off + len <=? s) || (e <=? off) then f b
+    else if (off <=? s) && (e <=? off + len) then None
+    else match f b with
+         | None => None
+         | Some v => Some (zero_range v (Nat.max off s - s) (Nat.min (off + len) e - s))
+         end.
+
+Definition unmap (K : nat) (d : dd) (off len : nat) : dd :=
+  set_fl d (fun i => if (snapix d <? i) && (i <=? nf d) then unmap_file K (fl d i) off len else fl d i).
+
 (** ** operations and the step function *)
 Inductive op :=
 | Write (off : nat) (data : list N)
@@ -540,7 +562,8 @@ Inductive op :=
 | UpdateLunMap
 | Candidates (checkpoint : option N)
 | ReadFault (off len i : nat)       (* Read while every pread on chain file i fails *)
-| Clean (checkpoint : option N) (victim : N) (fail : bool).   (* one cleaner pass *)
+| Clean (checkpoint : option N) (victim : N) (fail : bool)    (* one cleaner pass *)
+| Unmap (off len : nat).           (* Server.Unmap, offsets in units *)
 
 Record out := mkout { ores : res; odata : list N }.
 
@@ -574,6 +597,9 @@ Definition step (fx : bool) (K : nat) (d : dd) (o : op) (ch : list bool) : dd * 
         if failed then (d1, mkout RErr [])
         else (d1, mkout ROk (fst (read_at K d off len)))
   | Clean cp victim fail => let '(d1, r) := clean d cp victim fail in (d1, mkout r (candidates d cp))
+  | Unmap off len =>
+      if (len =? 0) || (nblk d * K <? off + len) then (d, mkout RErr [])    (* fallocate: EINVAL for length 0 *)
+      else (unmap K d off len, mkout ROk [])
   end.
 
 Fixpoint run (fx : bool) (K : nat) (d : dd) (h : list (op * list bool)) : dd * list out :=
